@@ -41,6 +41,8 @@ ASSUMPTIONS = [
     "k-cell centres are compared with the exact rational frequencies j/(n*cell) (cell = the mesh's own float cell) with "
     "tolerance 16 ulp(1/cell); spectra with 1e-12*N*max|v|; round trips with 1e-12*max|v|; cell sizes 1e-12 relative; "
     "'centred at the origin' with 1e-12*edge",
+    "tracer fields carry a coded validity mask whose invalid cells hold non-zero values: validity is not part of the "
+    "transform (the statement sums over all real-space cells)",
     "the real transform is only applied to real data (the real transform of complex data is not defined); without an "
     "explicit shape the real inverse is only required to recover even last-axis counts (the statement grants this)",
     "naming: k-dims are compared with the documented 'k_<dim>'; k-units only behaviourally (differ from the original, "
@@ -307,7 +309,8 @@ def unit_dft(ctx):
         zero = tuple(0 if (half and a == ndim - 1) else n[a] // 2 for a in range(ndim))
         for nv in (1, 2, 3, 4):
             v = C.tracer(n, nv, ctx.seed, cplx=(kind == "complex"))
-            f = df.Field(mesh, nvdim=nv, value=v, dtype=v.dtype)
+            # some cells are marked invalid although they hold values: the transform is the sum over ALL real-space cells
+            f = df.Field(mesh, nvdim=nv, value=v, dtype=v.dtype, valid=C.coded_mask(n, 2, need_false=False))
             before = C.field_snap(f)
             ctx.step(1)
             F = getattr(f, tr)()
@@ -371,7 +374,7 @@ def unit_inverse(ctx):
     kindp, arg = pair.split(":")
     for nv in (1, 2, 3, 4):
         v = C.tracer(n, nv, ctx.seed, cplx=(arg == "complex"))
-        f = df.Field(mesh, nvdim=nv, value=v, dtype=v.dtype)
+        f = df.Field(mesh, nvdim=nv, value=v, dtype=v.dtype, valid=C.coded_mask(n, 3, need_false=False))
         vmax = float(np.abs(v).max())
         if kindp == "c2c":
             ctx.step(2, "ifftn(fftn(f))")
